@@ -4,7 +4,7 @@ from __future__ import annotations
 import ast
 
 from .. import astq, reference, smf, wire
-from ..absint import AbsRaise, AList, AObj, EVENT_LOG, Opaque, SeqVar
+from ..absint import AbsRaise, AList, AObj, EVENT_LOG, Opaque, SeqVar, assuming, only_length_splits, same_ending_length_splits
 from ..fold import ClassRef
 from ..model import AnalysisError, ClassInfo, FuncInfo, unparse
 from ..wire import AFile, Field, StrSym, VLQ
@@ -177,30 +177,30 @@ def r17_scoping(ctx):
 def _judge(ctx, ai, outs, inst, fn, mc, charset, initial, expect, mbytes):
     w = _mc(ctx)[1]
     cons_leak = f'{mc.qname}::restore::{"after-return" if expect == "return" else "after-exception"}'
-    if len(outs) != 1:
+    if len(outs) != 1 and not same_ending_length_splits(outs):
         ctx.fail('R17.1', inst, ctx.where(fn), f'the call does not have one outcome: {outs}', construct=f'{fn.qname}::outcomes')
         return
-    oc = outs[0]
-    if oc.kind != expect:
-        ctx.fail('R17.1', inst, ctx.where(fn), f'expected the call to {expect}, got {oc}', construct=f'{fn.qname}::outcome-kind')
-        return
-    after = ai.global_store.get(KEY, initial)
-    ctx.require(after == 'latin1', 'R17.1', f'{inst}.restored', w,
-                f'after the call ({oc.kind}{" " + str(oc.exc) if oc.kind == "raise" else ""}) the process-wide charset is {after!r}, not latin1: '
-                'meta text encoded or decoded elsewhere now uses the wrong charset', construct=cons_leak)
-    seen = [e[2] for e in oc.log if e[0] == 'codec']
-    wrong = [c for c in seen if c != charset]
-    ctx.require(not wrong, 'R17.3', f'{inst}.in-force', ctx.where(fn),
-                f'{len(wrong)} of {len(seen)} text encodings/decodings during the call used {sorted(set(map(repr, wrong)))} instead of the file charset {charset!r}',
-                construct=f'{fn.qname}::charset-in-force')
-    if expect == 'return':
-        ctx.require(bool(seen), 'R17.3', f'{inst}.exercised', ctx.where(fn), 'no text was encoded/decoded: scenario does not exercise the codec',
-                    construct=f'{fn.qname}::exercised')
+    for oc in outs:
+        if oc.kind != expect:
+            ctx.fail('R17.1', inst, ctx.where(fn), f'expected the call to {expect}, got {oc}', construct=f'{fn.qname}::outcome-kind')
+            return
+        after = getattr(oc, 'globals_after', ai.global_store).get(KEY, initial)
+        ctx.require(after == 'latin1', 'R17.1', f'{inst}.restored', w,
+                    f'after the call ({oc.kind}{" " + str(oc.exc) if oc.kind == "raise" else ""}) the process-wide charset is {after!r}, not latin1: '
+                    'meta text encoded or decoded elsewhere now uses the wrong charset', construct=cons_leak)
+        seen = [e[2] for e in oc.log if e[0] == 'codec']
+        wrong = [c for c in seen if c != charset]
+        ctx.require(not wrong, 'R17.3', f'{inst}.in-force', ctx.where(fn),
+                    f'{len(wrong)} of {len(seen)} text encodings/decodings during the call used {sorted(set(map(repr, wrong)))} instead of the file charset {charset!r}',
+                    construct=f'{fn.qname}::charset-in-force')
+        if expect == 'return':
+            ctx.require(bool(seen), 'R17.3', f'{inst}.exercised', ctx.where(fn), 'no text was encoded/decoded: scenario does not exercise the codec',
+                        construct=f'{fn.qname}::exercised')
     # an unrelated encode right after the call
     msg_cls = ctx.p.cls(META, 'MetaMessage')
     o2 = ai.explore(lambda: ai.call_function(mbytes, [wire.make_meta(ai, ctx, 'marker', {'text': StrSym('later')}, 0)], {}))
-    later = [e[2] for o_ in o2 for e in o_.log if e[0] == 'codec']
-    ctx.require(later == ['latin1'], 'R17.1', f'{inst}.later-encode', w, f'a meta message encoded after the call uses {later}', construct=cons_leak)
+    later = [[e[2] for e in o_.log if e[0] == 'codec'] for o_ in o2]
+    ctx.require(bool(later) and all(l_ == ['latin1'] for l_ in later), 'R17.1', f'{inst}.later-encode', w, f'a meta message encoded after the call uses {later}', construct=cons_leak)
 
 
 def _mc(ctx):
@@ -419,28 +419,30 @@ def r17_text_specs(ctx):
                 holder['n_enc'] = [e for e in EVENT_LOG if e[0] == 'codec']
                 dec = ai.call_function(bm, [tb, AList([T.bytes], 'list'), 0], {})
                 holder['all'] = [e for e in EVENT_LOG if e[0] == 'codec']
-                return enc, dec
+                return enc, dec, holder['n_enc'], holder['all']
             outs = ai.explore(thunk)
             ai.global_store.pop(KEY, None)
             inst = f'{type_} under {charset}'
             cons = f'{spec.qname if spec is not None else bm.qname}::text-wiring'
-            if len(outs) != 1 or outs[0].kind != 'return':
+            if not only_length_splits(outs):
                 ctx.fail('R17.3', inst, w, f'encoding then decoding a text message does not complete on one path: {outs}', construct=cons)
                 continue
-            enc, dec = outs[0].value
-            ev_enc, ev_all = holder['n_enc'], holder['all']
-            ok = len(ev_enc) == 1 and ev_enc[0][1] == 'encode' and ev_enc[0][2] == charset and isinstance(enc, AList) \
-                and len(enc.items) >= 4 and enc.items[3:] == [T.bytes]
-            ctx.require(ok, 'R17.3', f'encode({inst})', w,
-                        f'bytes() of a {type_} message makes codec calls {[(e[1], e[2]) for e in ev_enc]} and emits payload '
-                        f'{enc.items[3:] if isinstance(enc, AList) else enc!r}; expected one encode_string call under {charset!r} whose result is the payload',
-                        construct=cons + '::encode')
-            ev_dec = ev_all[len(ev_enc):]
-            got = dec.attrs.get(attr) if isinstance(dec, AObj) else None
-            ok = len(ev_dec) == 1 and ev_dec[0][1] == 'decode' and ev_dec[0][2] == charset and got is T
-            ctx.require(ok, 'R17.3', f'decode({inst})', w,
-                        f'decoding the payload makes codec calls {[(e[1], e[2]) for e in ev_dec]} and stores {got!r}; expected one decode_string call under '
-                        f'{charset!r} whose result is stored unchanged', construct=cons + '::decode')
+            for o_t in outs:
+              with assuming(o_t):
+                enc, dec, ev_enc, ev_all = o_t.value
+                ok = len(ev_enc) == 1 and ev_enc[0][1] == 'encode' and ev_enc[0][2] == charset and isinstance(enc, AList) \
+                    and len(enc.items) >= 4 and enc.items[3:] == [T.bytes] and enc.items[0] == 0xff and enc.items[1] == tb \
+                    and wire.item_equal(enc.items[2], wire.VLQ(wire.size_of(enc.items[3:])))
+                ctx.require(ok, 'R17.3', f'encode({inst})', w,
+                            f'bytes() of a {type_} message makes codec calls {[(e[1], e[2]) for e in ev_enc]} and emits payload '
+                            f'{enc.items[3:] if isinstance(enc, AList) else enc!r}; expected FF {tb:02X} <length of the payload as a variable length quantity> and one encode_string call under {charset!r} whose result is the payload',
+                            construct=cons + '::encode')
+                ev_dec = ev_all[len(ev_enc):]
+                got = dec.attrs.get(attr) if isinstance(dec, AObj) else None
+                ok = len(ev_dec) == 1 and ev_dec[0][1] == 'decode' and ev_dec[0][2] == charset and got is T
+                ctx.require(ok, 'R17.3', f'decode({inst})', w,
+                            f'decoding the payload makes codec calls {[(e[1], e[2]) for e in ev_dec]} and stores {got!r}; expected one decode_string call under '
+                            f'{charset!r} whose result is stored unchanged', construct=cons + '::decode')
     ctx.floor('R17.3-text-specs', n, 16)
     for q in ai.inlined:
         ctx.functions.add(q)
